@@ -26,7 +26,10 @@ RULE = (
     '(unchanged / add a task / add a prerequisite line onto an existing '
     'task / add a custom output / remove a task / remove a prerequisite) and '
     'a history of <= 50 steps over loop / return / advance / deliver, commands '
-    'hold, release, trigger, set, pause, resume, and reload steps that write '
+    'hold, release, trigger, set, pause, resume, remove (also aimed at a '
+    'waiting task with some prerequisites satisfied and others not, which is '
+    'then spawned again with the already recorded outputs unsatisfied), and '
+    'reload steps that write '
     'the edited flow.cylc into the run directory and issue the real reload '
     'command (also while tasks are preparing); then 8 rounds of the fair '
     'schedule.  Oracle per '
@@ -107,6 +110,7 @@ def cases(draw):
     ops = (['loop'] * 3 + ['round'] * 3 + ['ret', 'ret', 'adv', 'adv', 'del',
                                              'del']
            + CMD_OPS + ['hold', 'trigger-new', 'trigger-new']
+           + ['remove-partial'] * 2
            + ['reload-edit'] * 3 + ['reload'])
 
     def mk(t):
@@ -204,6 +208,10 @@ def judge_reload(rec, to_str, to_int, classes):
                     continue
                 classes.add('surviving-atom:' + (
                     'satisfied' if av else 'unsatisfied'))
+                if not av and (key in rec['recorded_db'] or _label_key(
+                        key, old) in rec['recorded_labels']):
+                    # e.g. the task was removed and spawned again later
+                    classes.add('surviving-atom:unsatisfied-though-recorded')
                 if av != bv:
                     out.append(Violation(
                         'C27:surviving-prerequisite-changed:'
